@@ -216,6 +216,14 @@ def gen_history(rng, tree, nops):
     return ops
 
 
+def existed(tree, pos):
+    try:
+        X.get_at(tree, pos)
+        return True
+    except (KeyError, IndexError, TypeError):
+        return False
+
+
 def check_history(c):
     o = X.convert(c["tree"], c["mode"])
     ref = copy.deepcopy(c["tree"])
@@ -229,6 +237,7 @@ def check_history(c):
             r = core.call(lambda: o.__setitem__(op["xp"], v))
             if r[0] != "ok":
                 return {"step": k, "op": op, "raised": r[1], "tree": repr(o)[:300], "c03c": c03c}
+            ref_before = copy.deepcopy(ref)
             pos = ref_create(ref, op["base"], steps, copy.deepcopy(op["v"]))
             if o != ref or enc_val_plain(o) != enc_val_plain(ref):
                 return {"step": k, "op": op, "tree": repr(o)[:400], "reference": repr(ref)[:400]}
@@ -243,6 +252,11 @@ def check_history(c):
             par = X.get_at(o, pos[:-1])
             if not isinstance(par, (dict, list)):
                 return {"step": k, "op": op, "parent_not_container": repr(par)[:100]}
+            n0dict, n0list = X.n0()
+            for j in range(len(op["base"]) + 1, len(pos)):
+                made = X.get_at(o, pos[:j])
+                if not existed(ref_before, pos[:j]) and not isinstance(made, (n0dict, n0list)):
+                    return {"step": k, "op": op, "created_container_not_navigable": type(made).__name__, "at": list(pos[:j])}
         elif op["op"] == "set":
             v = copy.deepcopy(op["v"])
             r = core.call(lambda: o.__setitem__(op["xp"], v))
